@@ -21,11 +21,16 @@ RULE = ('One case = 2-4 interpreters running generated charts that send events (
         'order; nothing else (no notify, no consumed external event, nothing after detach); and every sent event must later be '
         'consumed exactly once as an internal event by its sender. Non-trivial = distinct (topology, step) with >= 2 bindings '
         'and >= 2 sends in one step. 1 case in 12: two interpreters bound in a cycle and stepped by two threads under the controlled '
-        'scheduler (deadlock detection, delivery exactly once and in order after a drain).')
-ASSUMPTIONS = ['bind() is only called at step boundaries (the statement does not say whether a target bound during a delivery receives '
-               'the event being delivered); detach() is also called from inside callbacks',
+        'scheduler (deadlock detection, delivery exactly once and in order after a drain). Every internal event listed in a returned MacroStep must have been '
+        'sent by code run during that very call (ids are handed out at the send() call).')
+ASSUMPTIONS = ['bind() is called at step boundaries and as the first statement of transition actions (such a target must get every event '
+               'whose send() call came later; for events of the same micro step sent earlier, by exit code, either answer is accepted); '
+               'bind() is not called from inside a delivery (the statement does not say whether such a target receives the event being '
+               'delivered); detach() is also called from inside callbacks',
+               'after a call of execute_once that raised (non-determinism, a planned failure of an action that had already called send) '
+               'the interpreter is used further; for it only the delivery rules are judged, not the consumption of its own internal events',
                'generated charts per DESIGN §2']
-REQUIRED_COUNTERS = ['bound_method_targets_without_other_reference', 'threaded_schedules', 'threaded_deliveries_checked', 'sender_steps_checked', 'deliveries_checked', 'steps_with_2plus_bindings_and_2plus_sends', 'detach_inside_callback',
+REQUIRED_COUNTERS = ['bind_from_action_code', 'action_raised_after_sending', 'steps_returned_after_an_earlier_raise', 'bound_method_targets_without_other_reference', 'threaded_schedules', 'threaded_deliveries_checked', 'sender_steps_checked', 'deliveries_checked', 'steps_with_2plus_bindings_and_2plus_sends', 'detach_inside_callback',
                      'self_detach_inside_callback', 'detach_at_boundary', 'delayed_events_delivered', 'notify_not_forwarded',
                      'own_internal_consumptions', 'cyclic_topologies', 'same_target_bound_twice', 'sends_while_becoming_final']
 TIERS = dict(quick=dict(ticks=70, gen=dict(max_states=9, max_depth=3, max_trans=10)),
@@ -53,7 +58,13 @@ class RefCoder(build.Coder):
         return self._with_ref(build.Coder.exit(self, ch, n))
 
     def action(self, ch, t):
-        return self._with_ref(build.Coder.action(self, ch, t))
+        code = self._with_ref(build.Coder.action(self, ch, t))
+        k = int(t['id'][1:])
+        if k % 5 == 0:
+            code = 'B(%r)\n' % t['id'] + code          # the action first binds a new target, then sends: the new target gets those events
+        if k % 7 == 3:
+            code = code + '\nBOOM(%r)' % t['id']        # the action sends, then raises (once): nothing of it may surface later
+        return code
 
 
 def run_case(acc, rnd, tier, case):
@@ -72,11 +83,34 @@ def run_case(acc, rnd, tier, case):
         nd.sc, nd.tmap = build.build_api(nd.ch, coder=RefCoder())
         nd.pr = Probes(val=make_val(rnd.random(), rnd.choice((0.6, 0.9, 1.0))), first_uid=100000 * (i + 1))
         nd.ref = object()       # a parameter that only compares equal to itself (e.g. a reply mailbox)
-        nd.it = Interpreter(nd.sc, initial_context=nd.pr.context(REF=nd.ref))
         nd.bindings = []        # model: ordered list of [handle, target id]
+        nd.boomed = set()
+        nd.bound_by_code = set()
+
+        def B(key, _nd=nd):
+            if key in _nd.bound_by_code:
+                return
+            _nd.bound_by_code.add(key)
+            tid = ('cb', 100 + 10 * _nd.i + len(_nd.bound_by_code))
+
+            def cb(ev, _tid=tid):
+                dlog.append((_tid, type(ev).__name__, ev.name, dict(ev.data)))
+            h = _nd.it.bind(cb)
+            _nd.bindings.append([h, tid])
+            dlog.append(('BIND', id(h), tid))
+            _nd.pr.log.append(('BIND', id(h)))
+            acc.count('bind_from_action_code')
+
+        def BOOM(key, _nd=nd):
+            if key not in _nd.boomed:
+                _nd.boomed.add(key)
+                acc.count('action_raised_after_sending')
+                raise RuntimeError('planned failure in the action of %s' % key)
+        nd.it = Interpreter(nd.sc, initial_context=nd.pr.context(REF=nd.ref, B=B, BOOM=BOOM))
         nd.sent = {}            # uid -> name of internal events this node sent
         nd.consumed = Counter()
         nd.dead = False
+        nd.wounded = 0          # number of calls that raised: the interpreter is used further, only delivery rules are judged
         nd.quiet = 0
         real_queue = nd.it.queue
 
@@ -224,7 +258,7 @@ def run_case(acc, rnd, tier, case):
                 return
             if nd.dead or nd.quiet >= 2:
                 break
-        if nd.quiet >= 2 and not nd.dead:
+        if nd.quiet >= 2 and not nd.dead and not nd.wounded:
             missing = [u for u in nd.sent if nd.consumed[u] != 1 and nd.sent[u][1] <= nd.it.time]
             if missing:
                 acc.violation('C15:not-queued-for-sender', 'interpreter %d sent internal events %r but never consumed them itself'
@@ -237,11 +271,16 @@ def step_and_check(acc, rnd, nd, nodes, dlog, history, wit):
     mark = len(dlog)
     bindings_before = [list(b) for b in nd.bindings]
     nd.pr.stepno += 1
+    del nd.pr.log[:]
     was_final = nd.it.final
     try:
         step = nd.it.execute_once()
-    except Exception as e:  # noqa  (non-determinism etc. of a generated chart: that node stops)
-        nd.dead = True
+    except Exception as e:  # noqa  (non-determinism of a generated chart, a planned failure of an action)
+        # the interpreter is used further (a caller may catch the error and go on): whatever it does then, what it delivers
+        # must be what the MacroSteps it returns list as sent
+        nd.wounded += 1
+        if nd.wounded > 4:
+            nd.dead = True
         history.append(('raise', nd.i, type(e).__name__))
         return True
     got = dlog[mark:]
@@ -249,7 +288,7 @@ def step_and_check(acc, rnd, nd, nodes, dlog, history, wit):
     history[:] = history[-40:]
     if step is None:
         nd.quiet += 1
-        if [g for g in got if g[0] != 'DETACH']:
+        if [g for g in got if g[0] not in ('DETACH', 'BIND')]:
             acc.violation('C15:delivery-without-step', 'interpreter %d delivered %r while execute_once returned None' % (nd.i, got[:3]), wit)
             return False
         return True
@@ -258,7 +297,7 @@ def step_and_check(acc, rnd, nd, nodes, dlog, history, wit):
         u = step.event.data.get('u')
         nd.consumed[u] += 1
         acc.count('own_internal_consumptions')
-        if u not in nd.sent or nd.consumed[u] > 1:
+        if not nd.wounded and (u not in nd.sent or nd.consumed[u] > 1):
             acc.violation('C15:own-queue', 'interpreter %d consumed internal event %r %s' %
                           (nd.i, u, 'twice' if u in nd.sent else 'which it never sent'), wit)
             return False
@@ -272,33 +311,62 @@ def step_and_check(acc, rnd, nd, nodes, dlog, history, wit):
         acc.count('sends_while_becoming_final')
     # expected deliveries: for each sent event, in order, one delivery to every binding (in binding order) that is
     # still attached at that moment; detachments made by callbacks are marked in the log at the exact position.
+    # Bindings made by the action code of this step (B(...) first thing in an action) are marked in the log too: such a
+    # target must get every event whose send() call came after the bind() call; for events of the same micro step whose
+    # send() came before (exit code runs before the action) either answer is accepted.
+    plog = nd.pr.log
+    pos = {}
+    for i, ent in enumerate(plog):
+        if ent[0] in ('U', 'BIND'):
+            pos[(ent[0], ent[1])] = i
+    ghosts = [(e.name, e.data.get('u')) for e in sent if ('U', e.data.get('u')) not in pos]
+    if ghosts:
+        acc.violation('C15:sent-event-not-sent-by-this-step', 'interpreter %d: the returned MacroStep lists %r as sent, but no code run '
+                      'by this call of execute_once sent them (ids handed out during the call: %r)'
+                      % (nd.i, ghosts[:4], [k[1] for k in pos if k[0] == 'U'][:8]), wit)
+        return False
     gi = 0
     detached = set()
     ok = True
+    active = [[id(b[0]), b[1], False] for b in bindings_before]
+
+    def markers():
+        nonlocal gi
+        while gi < len(got) and got[gi][0] in ('DETACH', 'BIND'):
+            if got[gi][0] == 'DETACH':
+                detached.add(got[gi][1])
+            else:
+                active.append([got[gi][1], got[gi][2], True])
+            gi += 1
     for e in sent:
-        for b in bindings_before:
-            if id(b[0]) in detached:
+        markers()
+        for b in list(active):
+            if b[0] in detached:
                 continue
             want = (b[1], 'Event', e.name, dict(e.data))
+            optional = b[2] and pos.get(('U', e.data.get('u')), 1 << 30) < pos.get(('BIND', b[0]), -1)
             if gi < len(got) and got[gi] == want:
                 gi += 1
+            elif optional:
+                pass
             else:
                 ok = False
                 break
-            while gi < len(got) and got[gi][0] == 'DETACH':
-                detached.add(got[gi][1])
-                gi += 1
+            markers()
         if not ok:
             break
+    markers()
     got = [g for g in got if g[0] != 'DETACH'] if False else got
     if not ok or gi != len(got):
         acc.violation('C15:deliveries-differ', 'interpreter %d sent %r with bindings %r; deliveries observed %r' %
                       (nd.i, [(e.name, e.data.get('u')) for e in sent], [b[1] for b in bindings_before],
-                       [(g[0], g[1], g[2], g[3].get('u')) if g[0] != 'DETACH' else 'DETACH' for g in got[:14]]), wit)
+                       [(g[0], g[1], g[2], g[3].get('u')) if g[0] not in ('DETACH', 'BIND') else g[0] for g in got[:14]]), wit)
         return False
-    got = [g for g in got if g[0] != 'DETACH']
+    got = [g for g in got if g[0] not in ('DETACH', 'BIND')]
     # a binding detached inside a callback of *this* step must have been detached by a delivery of this step
     acc.count('sender_steps_checked')
+    if nd.wounded:
+        acc.count('steps_returned_after_an_earlier_raise')
     acc.count('deliveries_checked', len(got))
     if any('delay' in g[3] for g in got):
         acc.count('delayed_events_delivered')
